@@ -56,6 +56,7 @@ def kind_of(q, nmodes):
 
 
 def end_to_end(chk, fam, text, nmodes, symm, variant, quads, ns, taus, negl_of=None, record=True):
+    tie_broken = chk.tie_broken if record else (lambda *a: None)     # candidates tried while shrinking raise no alarms
     qs = []
     for q in quads:
         for mode in (0, 1, 2, 3):
@@ -67,7 +68,7 @@ def end_to_end(chk, fam, text, nmodes, symm, variant, quads, ns, taus, negl_of=N
     if r.crash or r.error:
         return [("crash", r.crash or r.error)], r
     if r.cert is None or max(r.cert) > 1e-9:
-        chk.tie_broken("eigen-certificate", "residuals %r for %s" % (r.cert, L.canon(text)))
+        tie_broken("eigen-certificate", "residuals %r for %s" % (r.cert, L.canon(text)))
         return [], r
     beta = r.beta()
     try:
@@ -75,13 +76,15 @@ def end_to_end(chk, fam, text, nmodes, symm, variant, quads, ns, taus, negl_of=N
         for q in quads:
             bq.append("suscbound %d %d %d %d %d %s" % (q + (len(ns), " ".join(str(n) for n in ns))))
             bq.append("susctaubound %d %d %d %d" % q)
+            bq.append("susctauspec %d %d %d %d %s" % (q + (" ".join(repr(t) for t in taus),)))
         bl = L.oracle_bounds(r, bq)
         have_bounds = True
     except Exception as ex:
-        chk.tie_broken("driver_c01 (truncation bound)", repr(ex)[:300])
+        tie_broken("driver_c01 (truncation bound)", repr(ex)[:300])
         bl, have_bounds = [], False
     bN = [t for t in bl if t[0] == "SUSCBOUNDN"]
     bT = [t for t in bl if t[0] == "SUSCTAUBOUND"]
+    bS = {tuple(int(x) for x in t[1:5]): t for t in bl if t[0] == "SUSCTAUSPEC"}
     S = {}
     for t in r.get("impl", "SUSC"):
         S[(tuple(int(x) for x in t[1:5]), int(t[5]))] = t
@@ -95,7 +98,7 @@ def end_to_end(chk, fam, text, nmodes, symm, variant, quads, ns, taus, negl_of=N
     worst_res = 0.0
     for k, q in enumerate(quads):
         if any((q, m) not in S or (q, m) not in O for m in (0, 1, 2, 3)):
-            chk.tie_broken("missing record", "susc %s in %s" % (q, L.canon(text)))
+            tie_broken("missing record", "susc %s in %s" % (q, L.canon(text)))
             continue
         negl = negl_of(q) if negl_of else 0.0
         dropped_any = False
@@ -138,6 +141,10 @@ def end_to_end(chk, fam, text, nmodes, symm, variant, quads, ns, taus, negl_of=N
             for p, tau in enumerate(taus):
                 for mode in (0, 1):
                     vi, vo = L.cplx(ST[(q, mode)], 6 + 2 * p), L.cplx(OT[(q, mode)], 6 + 2 * p)
+                    if q in bS:      # overflow-safe form of the same specification (large beta)
+                        vo = L.cplx(bS[q], 5 + 2 * p) - (oA * oB if mode else 0.0)
+                    elif vo != vo:
+                        continue     # the binary64 oracle overflowed (inf * 0): no statement
                     allowed = NOISE * (1.0 + abs(vo) + abs(oA * oB)) * 10 + tdrop + tmerge + negl
                     if not (abs(vi - vo) <= allowed):
                         fails.append((q, "tau", "mode=%d tau=%r" % (mode, tau), vi, vo, allowed))
@@ -253,9 +260,25 @@ def report(chk, fam, text, nmodes, symm, variant, fail, ns, taus):
                               "expected": str(b), "observed": str(a), "kind": kind})
 
 
+# regression seeds, always run first: off-diagonal quadruples in a single block (the chase loops run past the inner vector),
+# S_z-changing operators under default symmetries, degenerate levels at W = 0
+ATOM = "site A 1 2\naddCoulombS A 2 -1\nsymm ignore\nbeta 4\n"
+HUB2 = "site A 1 2\nsite B 1 2\naddCoulombS A 2 -1\naddLevel B 0.25\naddHopping4 A B 0.5\nsymm ignore\nbeta 4\n"
+ASAN_CASES = [(ATOM, [(1, 0, 1, 1), (0, 0, 1, 0), (0, 1, 1, 0)]), (HUB2, [(0, 0, 0, 3), (0, 1, 2, 3), (0, 2, 1, 3)])]
+
+FIXED = [
+    ("hubbard-atom", ATOM, 2, "ignore", "real", [(1, 0, 1, 1), (0, 0, 1, 0), (0, 1, 1, 0), (1, 1, 0, 1)]),
+    ("two-site", HUB2, 4, "ignore", "real", [(0, 0, 0, 3), (0, 1, 2, 3)]),
+    ("two-site", "site A 1 2\nsite B 1 2\naddCoulombS A 2 -1\naddLevel B 0.25\naddHopping4 A B 0.5\nsymm ignore\nbeta 4\n", 4, "ignore", "real",
+     [(0, 2, 1, 3), (0, 1, 1, 0), (0, 0, 1, 1), (2, 0, 0, 2)]),
+    ("atomic-limit", "site A 1 2\nsite B 1 2\naddCoulombS A 2 -1\naddCoulombS B 2 -1\nsymm default\nbeta 10\n", 4, "default", "real",
+     [(0, 1, 1, 0), (0, 0, 0, 0), (0, 0, 2, 2), (0, 2, 2, 0)]),
+]
+
+
 def run(chk):
     quick = chk.tier == "quick"
-    ok, log = chk.prove(["extract/Extract_C01.vo"])
+    ok, log = chk.prove(["extract/Extract_C01.vo", "extract/Extract_ED.vo"])
     chk.trusted += ["translator/gen_c01.py and translator/cexpr.py",
                     "extraction: ExtrOcamlBasic, ExtrOcamlNatInt, ExtrOCamlFloats; no Extract Constant of our own",
                     "ocaml/driver_c01.ml, ocaml/driver_ed.ml, harness/h_c01.cpp, harness/h_ed.cpp, harness/ed_common.h",
@@ -275,10 +298,11 @@ def run(chk):
     scs = L.scenarios(chk.rng, chk.tier)
     if quick:
         scs = [s for k, s in enumerate(scs) if k % 2 == 0 or s[0] in ("two-site-spinflip", "pairing")][:10]
-    for (fam, text, nmodes, symm, variant) in scs:
+    work = [(f, t, n, sy, v, q) for (f, t, n, sy, v, q) in FIXED] + [(f, t, n, sy, v, None) for (f, t, n, sy, v) in scs]
+    for (fam, text, nmodes, symm, variant, fixed_quads) in work:
         beta = float(re.search(r'(?m)^beta (\S+)', text).group(1))
         taus = [0.0, 0.125 * beta, 0.5 * beta, 0.875 * beta, beta]
-        quads = quadruples(chk.rng, nmodes, chk.tier)
+        quads = fixed_quads or quadruples(chk.rng, nmodes, chk.tier)
         negl = {}
         if have_model:
             try:
@@ -296,6 +320,14 @@ def run(chk):
             if f[0] != "crash" and f[1] not in seen_kinds:
                 seen_kinds.add(f[1])
                 report(chk, fam, text, nmodes, symm, variant, f, ns, taus)
+    if have_model:
+        try:
+            cases = [(text, [("suscraw %d %d %d %d 1 0 0" % q, "suscmodel 1 0 0", "susc %d %d %d %d" % q) for q in quads])
+                     for text, quads in (ASAN_CASES[:1] if quick else ASAN_CASES)]
+            findings = L.asan_tie(chk, cases, "SusceptibilityPart::compute", "C14")
+            chk.notes.append("C17 loop findings (not violations of C14; proved result-neutral): %d" % len(findings))
+        except pv.BuildError as ex:
+            chk.tie_broken("asan build", ex.what)
     chk.rule = ("scenario families of tools/scen.py under default and ignored symmetries (real build; complex build and beta up to 200 in "
                 "the thorough tier); per scenario quadruples (a,b,c,d) of three kinds: density-density, A = c^+_a c_b with B = A^+ (S_z-changing "
                 "when a,b differ in spin), others incl. random; bosonic Matsubara numbers incl. 0 and negative; all four subtraction modes; "
@@ -314,7 +346,12 @@ def replay(chk, path):
     r = json.load(open(path))
     print(json.dumps(r, indent=1)[:3000])
     rp = r.get("replay", {})
-    if isinstance(rp, dict) and "scenario" in rp and "query" in rp:
+    if isinstance(rp, dict) and rp.get("variant") == "asan":
+        t = rp["query"].split()
+        q = tuple(int(x) for x in t[1:5])
+        print(L.asan_tie(chk, [(rp["scenario"], [("suscraw %d %d %d %d 1 0 0" % q, "suscmodel 1 0 0", "susc %d %d %d %d" % q)])],
+                         "SusceptibilityPart::compute", "C14"))
+    elif isinstance(rp, dict) and "scenario" in rp and "query" in rp:
         t = rp["query"].split()
         q = tuple(int(x) for x in t[1:5])
         beta = float(re.search(r'(?m)^beta (\S+)', rp["scenario"]).group(1))
